@@ -178,7 +178,7 @@ func c06Matrix() []c06Case {
 			}
 		}
 	}
-	return out
+	return append(out, c06ScaleMatrix()...)
 }
 
 var c06HostileNames = []string{"a.b", "app.version", "m.x", "l[0]", "a[1]", "a b", "a-b", "1a", "a:b", "a#b", "size", "SET", "é", "a.b.c", ".", "#h", ":x", "a.", ".a", "a\\.b"}
